@@ -80,7 +80,8 @@ func GenPipe(r *rand.Rand, o PipeOpts, useArg bool) *Pipe {
 		a, b, c3 := fmt.Sprintf("a%d", stage), fmt.Sprintf("b%d", stage), fmt.Sprintf("c%d", stage)
 		kind := []string{"map", "map", "accept", "combine", "combine3", "combineN", "iir", "iirCombine", "number", "compact", "cross", "merge", "top", "skip", "fsm", "plus"}[r.IntN(16)]
 		if stage == expensiveStage && o.Cost == 2 && r.IntN(3) > 0 {
-			kind = []string{"map", "accept"}[r.IntN(2)] // the stages that can switch to parallel execution
+			// the stages that can switch to parallel execution (the last one: a map over windows handed on by combineN)
+			kind = []string{"map", "accept", "map", "accept", "map", "accept", "combineNesc"}[r.IntN(7)]
 		}
 		p.Kinds = append(p.Kinds, kind)
 		switch kind {
@@ -92,8 +93,15 @@ func GenPipe(r *rand.Rand, o PipeOpts, useArg bool) *Pipe {
 			cur = ref.Method(cur, "combine", ref.Clo([]string{a, b}, ref.Bin("+", wrap(id(a)), ref.Bin("*", id(b), ref.Int(2)))))
 		case "combine3":
 			cur = ref.Method(cur, "combine3", ref.Clo([]string{a, b, c3}, ref.Bin("+", ref.Bin("+", wrap(id(a)), id(b)), id(c3))))
-		case "combineN":
-			cur = ref.Method(cur, "combineN", ref.Int(int64(1+r.IntN(3))), ref.Clo([]string{a}, ref.Bin("+", wrap(ref.Method(id(a), "first")), ref.Method(id(a), "sum"))))
+		case "combineN", "combineNesc":
+			if kind == "combineNesc" || r.IntN(2) == 0 {
+				// the window itself is handed on (it must stay what it was when a later stage - possibly running
+				// behind, on another goroutine - looks at it)
+				cur = ref.Method(cur, "combineN", ref.Int(int64(1+r.IntN(3))), ref.Clo([]string{a}, id(a)))
+				cur = ref.Method(cur, "map", ref.Clo([]string{a}, ref.Bin("+", wrap(ref.Method(id(a), "first")), ref.Method(id(a), "sum"))))
+			} else {
+				cur = ref.Method(cur, "combineN", ref.Int(int64(1+r.IntN(3))), ref.Clo([]string{a}, ref.Bin("+", wrap(ref.Method(id(a), "first")), ref.Method(id(a), "sum"))))
+			}
 		case "iir":
 			cur = ref.Method(cur, "iir", ref.Clo([]string{a}, wrap(id(a))), ref.Clo([]string{a, b}, ref.Bin("+", wrap(id(a)), ref.Bin("%", id(b), ref.Int(7)))))
 		case "iirCombine":
